@@ -4,7 +4,7 @@ import z3
 from pyvc.vals import Val, NONE, I, B, Z, ref, fresh, cls_of, PENDING, RUNNING, CANCELLED, CANCELLED_AND_NOTIFIED, FINISHED
 from pyvc.verify import Unit, sym_inst, sym_val, user_calls
 from pyvc.symexec import Raise, LoopSpec
-from .base import make_cfg, FIELD_TYPES, INST, OPT, RecordCall
+from .base import make_cfg, FIELD_TYPES, INST, OPT, RecordCall, reentrant_cancel_context
 
 FIELD_TYPES.update({
     ("RetryFuture", "delegate_future"): OPT("future"),
@@ -36,6 +36,9 @@ def _cfg_cancel():
             if why == "opaque" and any(h[3] == "_me_lock" for h in st.held):
                 os_, ns = z3.Select(O("$fstate"), sid), st.fstate(sid)
                 st.assume(z3.Or(ns == os_, z3.And(os_ == PENDING, ns == CANCELLED_AND_NOTIFIED)))
+                # nested activations leave the in-progress counter as they found it (clause `balanced` of cancel();
+                # nothing else writes it: static writer set)
+                st.assume(st.get("_me_cancelling", sid) == z3.Select(O("_me_cancelling"), sid))
             st.assume(st.fstate(sid) != RUNNING)
     cfg.after_interfere = rely
 
@@ -51,13 +54,17 @@ def _cfg_cancel():
     return cfg
 
 
-def _setup_cancel(cls_name):
+def _setup_cancel(cls_name, nested=False):
     def setup(engine, st):
         self = sym_inst(engine, st, cls_name, "self")
         sid = Val.id(self.t)
         engine.cfg.own = [sid]
         st.assume(st.fstate(sid) != RUNNING)        # library futures are never RUNNING (FR: set_running_... only after cancel)
-        ctx = {"self": self, "sid": sid, "s0": st.fstate(sid), "finished0": st.finished(sid), "cancelled0": st.cancelled(sid)}
+        st.assume(Val.is_intv(st.get("_me_cancelling", sid)))
+        if nested:
+            reentrant_cancel_context(engine, st, self)
+        ctx = {"self": self, "sid": sid, "s0": st.fstate(sid), "finished0": st.finished(sid), "cancelled0": st.cancelled(sid),
+               "nested": nested, "depth0": st.get("_me_cancelling", sid)}
         return [self], {}, ctx
     return setup
 
@@ -76,7 +83,9 @@ def _post_cancel(cls_name):
         cl.append(("cancel() -> True means the future is (and by F1 stays) cancelled", "PC", z3.Implies(rb, st.cancelled(sid)), ["C02", "C06"]))
         cl.append(("cancel() on a future that finished normally returns False", "PC", z3.Implies(ctx["finished0"], z3.Not(rb)), ["C02", "C06"]))
         cl.append(("cancel() on an already cancelled future returns True", "PC", z3.Implies(ctx["cancelled0"], rb), ["C02"]))
-        car = st.ghost.get("cancelled@release")
+        car = st.ghost.get("cancelled@release") if not ctx["nested"] else st.cancelled(sid)     # nested: the lock stays held, the state is stable
+        acq = st.ghost.get("fut@acquire")
+        cancelled_at_acquire = acq["cancelled"] if (acq is not None and not ctx["nested"]) else ctx["cancelled0"]
         if car is not None:
             cl.append(("cancel() never answers False about a future that is cancelled when it lets go of the future's lock "
                        "(e.g. cancelled by a callback re-entering while the underlying work was being cancelled)", "PC",
@@ -85,15 +94,25 @@ def _post_cancel(cls_name):
         inv = [i for i, e in enumerate(st.trace) if e.kind == "repo-call" and e.meth.endswith("_me_invoke_callbacks")]
         notif = [i for i, e in enumerate(st.trace) if e.kind == "notify" and z3.is_true(z3.simplify(e.recv == sid))]
         rel = [i for i, e in enumerate(st.trace) if e.kind == "release" and e.meth == "_me_lock"]
-        cl.append(("callbacks are dispatched exactly once by the call that cancelled the future, after the lock is released", "PC",
-                   z3.BoolVal(len(inv) == len(mine) and len(mine) <= 1 and (not inv or (rel and inv[0] > rel[-1] and not st.trace[inv[0]].held))), ["C02", "C04"]))
+        if ctx["nested"]:
+            cl.append(("the in-progress counter is balanced: cancel() leaves _me_cancelling as it found it", "PC", st.get("_me_cancelling", sid) == ctx["depth0"], ["C02", "C04"]))
+        cl.append(("this call cancels the future at most once", "PC", z3.BoolVal(len(mine) <= 1), ["C02"]))
+        if ctx["nested"]:
+            cl.append(("a cancel() nested inside this thread's own cancel() of the same future never runs the done-callbacks (the outer call "
+                       "does, once it has let go of the lock)", "PC", z3.BoolVal(len(inv) == 0), ["C02", "C04"]))
+        else:
+            became = z3.And(z3.Not(cancelled_at_acquire), car) if car is not None else z3.BoolVal(False)
+            cl.append(("callbacks are dispatched exactly once, by the outermost cancel() during which the future became cancelled (by this call or by "
+                       "a callback re-entering while the underlying work was being cancelled) - and never while the lock is held", "PC",
+                       z3.And(z3.If(became, z3.BoolVal(len(inv) == 1), z3.BoolVal(len(inv) == 0)),
+                              z3.BoolVal(not inv or (bool(rel) and inv[0] > rel[-1] and not st.trace[inv[0]].held))), ["C02", "C04"]))
         cl.append(("F6: a cancellation performed here ends in CANCELLED_AND_NOTIFIED (waiters released)", "PC",
                    z3.BoolVal((not mine) or bool(notif)), ["C02", "C03"]))
         # C06: forwarding of the request to the pending work
         dcalls = [e for e in st.trace if e.kind == "call" and e.meth == "cancel"]
         cl.append(("the cancel request is forwarded to the underlying future at most once", "PC", len(dcalls) <= 1, ["C06"]))
         if dcalls:
-            car2 = st.ghost.get("cancelled@release")
+            car2 = car
             cl.append(("a False from the underlying future's cancel() vetoes the cancellation (unless the future got cancelled meanwhile "
                        "by a re-entrant cancel: then the truthful answer is True)", "PC",
                        z3.Implies(z3.Not(dcalls[0].ret), z3.Or(z3.Not(rb), car2 if car2 is not None else z3.BoolVal(False))) if dcalls[0].ret is not None else True, ["C06"]))
@@ -107,6 +126,52 @@ def _post_cancel(cls_name):
 
 UNITS = [Unit("_Future.cancel[%s]" % c, "common._Future.cancel", ["C02", "C06", "C04", "C13", "C18", "C03"],
               _setup_cancel(c), _post_cancel(c), cfg=_cfg_cancel, self_cls=c) for c in FUTURE_CLASSES]
+UNITS += [Unit("_Future.cancel[%s, nested in own cancel()]" % c, "common._Future.cancel", ["C02", "C04", "C06"],
+               _setup_cancel(c, True), _post_cancel(c), cfg=_cfg_cancel, self_cls=c) for c in ("MapFuture", "RetryFuture", "PollFuture")]
+
+
+# ---- _me_cancel_with_delegate: the delegate was cancelled by someone else ------------------------------------------------------
+def _setup_cwd(cls_name, nested):
+    def setup(engine, st):
+        self = sym_inst(engine, st, cls_name, "self")
+        sid = Val.id(self.t)
+        engine.cfg.own = [sid]
+        st.assume(st.fstate(sid) != RUNNING)
+        st.assume(Val.is_intv(st.get("_me_cancelling", sid)))
+        if nested:
+            reentrant_cancel_context(engine, st, self)
+        return [self], {}, {"self": self, "sid": sid, "done0": st.done(sid), "nested": nested, "depth0": st.get("_me_cancelling", sid)}
+    return setup
+
+
+def _post_cwd(engine, st, ctx, out):
+    sid = ctx["sid"]
+    inv = [i for i, e in enumerate(st.trace) if e.kind == "repo-call" and e.meth.endswith("_me_invoke_callbacks")]
+    notif = [i for i, e in enumerate(st.trace) if e.kind == "notify" and z3.is_true(z3.simplify(e.recv == sid))]
+    rel = [i for i, e in enumerate(st.trace) if e.kind == "release" and e.meth == "_me_lock"]
+    acq = st.ghost.get("fut@acquire")
+    if acq is not None and not ctx["nested"]:
+        ctx = dict(ctx, done0=acq["done"])
+    cl = [("never raises", "EX", not isinstance(out, Raise), ["C03", "C18"]),
+          ("SP: a future that was not done ends cancelled, waiters released (CANCELLED_AND_NOTIFIED)", "SP",
+           z3.Implies(z3.Not(ctx["done0"]), z3.And(st.cancelled(sid), z3.BoolVal(bool(notif)))), ["C03", "C02"]),
+          ("a future that was done already is left alone", "PC", z3.Implies(ctx["done0"], z3.BoolVal(not inv and not notif)), ["C02"]),
+          ]
+    if ctx["nested"]:
+        cl.append(("_me_cancelling is not touched", "PC", st.get("_me_cancelling", sid) == ctx["depth0"], ["C04", "C02"]))
+        cl.append(("nested inside this thread's own cancel(): the done-callbacks are left to that cancel() (never run under the lock)", "PC",
+                   z3.BoolVal(len(inv) == 0), ["C04", "C02"]))
+    else:
+        cl.append(("otherwise the done-callbacks are dispatched exactly once, after the lock is released", "PC",
+                   z3.And(z3.If(ctx["done0"], z3.BoolVal(len(inv) == 0), z3.BoolVal(len(inv) == 1)),
+                          z3.BoolVal(not inv or (bool(rel) and inv[0] > rel[-1] and not st.trace[inv[0]].held))), ["C02", "C04", "C03"]))
+    return cl
+
+
+for c in ("MapFuture", "PollFuture"):
+    for nested in (False, True):
+        UNITS.append(Unit("_Future._me_cancel_with_delegate[%s%s]" % (c, ", nested in own cancel()" if nested else ""), "common._Future._me_cancel_with_delegate",
+                          ["C03", "C02", "C04", "C18"], _setup_cwd(c, nested), _post_cwd, cfg=_cfg_cancel, self_cls=c))
 
 REPLAYS = [("C02", "cancel() never raises", "replay/c02_reentrant_cancel.py"),
            ("C18", "cancel() never raises", "replay/c02_reentrant_cancel.py"),
@@ -259,3 +324,37 @@ for c, tol in (("MapFuture", False), ("PollFuture", True), ("RetryFuture", False
     UNITS.append(Unit("%s.set_exception" % c, {"MapFuture": "map.MapFuture.set_exception", "PollFuture": "poll.PollFuture.set_exception",
                                               "RetryFuture": "retry.RetryFuture.set_exception"}[c], ["C02", "C01", "C04", "C18"],
                       _setup_set(c, "exc"), _post_set("exception", False), cfg=_cfg_set, self_cls=c))
+
+
+
+# ---- cancel() nested inside RetryExecutor._submit_now's hold of the future's lock ------------------------------------------------
+# _submit_now hands the callable to the delegate while holding (future lock, executor lock); a synchronous delegate runs the
+# callable right there, and the callable may call cancel() on its own future.  No cancel() is in progress then (counter 0), so a
+# successful cancel would run the done-callbacks under the lock.  It cannot succeed: the job was popped before the hand-over, and
+# RetryExecutor._cancel answers False for a future without a job (unit `RetryExecutor._cancel`, clause `no job: too late`).
+def _cfg_cancel_in_submit_now():
+    cfg = _cfg_cancel()
+    cfg.contracts["more_executors._impl.retry.RetryExecutor._cancel"] = RecordCall(ret=False)
+    return cfg
+
+
+def _setup_cancel_in_submit_now(engine, st):
+    self = sym_inst(engine, st, "RetryFuture", "self")
+    sid = Val.id(self.t)
+    engine.cfg.own = [sid]
+    st.assume(st.pending(sid))                      # _submit_now checked `job.future.done()` under the same hold
+    lk = engine.typed(st, st.get("_me_lock", sid), "rlock")
+    st.held.append((Val.id(lk.t), "RLock", sid, "_me_lock"))
+    st.assume(st.get("_me_cancelling", sid) == Val.intv(z3.IntVal(0)))
+    st.assume(z3.Not(Val.is_none(st.get("_executor", sid))))
+    return [self], {}, {"self": self, "sid": sid}
+
+
+def _post_cancel_in_submit_now(engine, st, ctx, out):
+    inv = [e for e in st.trace if e.kind == "repo-call" and e.meth.endswith("_me_invoke_callbacks")]
+    return [("cancel() from inside the callable being handed over answers False, cancels nothing and runs no callback", "PC",
+             z3.And(z3.BoolVal(out is False and not inv), st.pending(ctx["sid"])), ["C04", "C02", "C06"])]
+
+
+UNITS.append(Unit("_Future.cancel[RetryFuture, nested in _submit_now's hand-over]", "common._Future.cancel", ["C04", "C02", "C06"],
+                  _setup_cancel_in_submit_now, _post_cancel_in_submit_now, cfg=_cfg_cancel_in_submit_now, self_cls="RetryFuture"))
